@@ -32,10 +32,10 @@ WORK = Path("/tmp/mutsweep")
 VERIF = Path(__file__).resolve().parents[1]
 
 FILE_PROPS = {
-    "ensemble_evaluator/_ensemble_evaluator.py": ["C01", "C02", "C03", "C06", "C09", "C10", "C17", "C04", "C05", "C14", "C16", "C07"],
+    "ensemble_evaluator/_ensemble_evaluator.py": ["C06", "C02", "C03", "C01", "C09", "C10", "C17", "C04", "C05", "C14", "C16", "C07"],
     "ensemble_evaluator/_function.py": ["C01", "C03", "C04", "C05"],
     "ensemble_evaluator/_gradient.py": ["C02", "C03", "C10", "C09", "C17"],
-    "ensemble_evaluator/_evaluator_results.py": ["C06", "C01", "C03", "C14", "C07", "C02"],
+    "ensemble_evaluator/_evaluator_results.py": ["C06", "C03", "C01", "C14", "C07", "C02"],
     "ensemble_evaluator/_utils.py": ["C01", "C02"],
     "plugins/realization_filter/default.py": ["C04", "C05"],
     "plugins/function_estimator/default.py": ["C01", "C02", "C03"],
@@ -333,6 +333,7 @@ def main() -> int:
     parser.add_argument("--out")
     parser.add_argument("--jobs", type=int, default=14)
     parser.add_argument("--props")
+    parser.add_argument("--max-checks", type=int, default=3)
     args = parser.parse_args()
     if args.mode == "gen":
         for rel in args.files:
@@ -354,7 +355,7 @@ def main() -> int:
             done.add((rec["file"], rec["start"], rec["end"], rec["new"]))
     with out_path.open("a") as out:
         for rel in args.files:
-            props = args.props.split(",") if args.props else FILE_PROPS[rel]
+            props = args.props.split(",") if args.props else FILE_PROPS[rel][: args.max_checks]
             ms = [m for m in mutants(rel) if (m["file"], m["start"], m["end"], m["new"]) not in done]
             print(f"== {rel}: {len(ms)} mutants, checks {props}", flush=True)
             with ThreadPoolExecutor(args.jobs) as pool:
